@@ -141,7 +141,6 @@ static void on_exit_handler(void)
         fprintf(out, " steps=%lu state=exit\n", h_steps);
     }
     fflush(out);
-    unlink(cap_out_name); unlink(cap_err_name);
 }
 
 /* ---- digests ------------------------------------------------------------------------------- */
@@ -320,6 +319,7 @@ int main(int argc, char ** argv)
     snprintf(cap_err_name, sizeof cap_err_name, "/var/tmp/apidrive.e.XXXXXX");
     cap_out = mkstemp(cap_out_name); cap_err = mkstemp(cap_err_name);
     if (cap_out < 0 || cap_err < 0) { perror("mkstemp"); return 2; }
+    unlink(cap_out_name); unlink(cap_err_name);       /* anonymous from here on: nothing is left behind */
     atexit(on_exit_handler);
 #ifdef NEVER_VERIF
     nev_verif_step_hook = step_hook;
@@ -464,6 +464,5 @@ int main(int argc, char ** argv)
     for (int i = 0; i < NH; i++) if (progs[i]) { program_delete(progs[i]); progs[i] = NULL; free(prog_src[i]);
         for (int k = 0; k < 16; k++) free(prog_args[i][k]); }
     close(cap_out); close(cap_err);
-    unlink(cap_out_name); unlink(cap_err_name);
     return 0;
 }
